@@ -10,10 +10,11 @@ import (
 // the only known non-terminating construct (the element loop of Rel) is
 // decided beforehand by relDiverges. Should a worker nevertheless make no
 // progress for stallLimit, the input it holds is re-evaluated on the reference
-// alone in a sacrificial goroutine: if the reference returns, the system under
-// test is the one that hangs, which is reported as a violation ("return
-// exactly what path/filepath returns"); if the reference does not return
-// either, that is a harness error. In both cases the run is ended: a stuck
+// alone in a sacrificial goroutine, then on the system under test alone: if the
+// reference returns and the system under test does not (20 s), that is
+// reported as a violation ("return exactly what path/filepath returns"); if
+// the reference does not return either, that is a harness error; if both
+// return, the stall was not a hang and the run continues. In both cases the run is ended: a stuck
 // goroutine cannot be stopped. No verdict other than HANG depends on time.
 const stallLimit = 90 * time.Second
 
@@ -41,6 +42,8 @@ func (d *driver) watchdog() {
 			}
 
 			d.stalled(w)
+
+			since[i] = time.Now() // not a hang after all
 		}
 	}
 }
@@ -77,6 +80,34 @@ func (d *driver) stalled(w *worker) {
 	case <-done:
 	case <-time.After(20 * time.Second):
 		harness("no progress for %v on %s %s%q and the reference does not return either", stallLimit, o.name, kind, args[:n])
+	}
+
+	// ... and the system under test, on the same input, in a fresh goroutine:
+	// only if that call does not return either is it a hang (a stopped or
+	// starved process must not be mistaken for one).
+	sutDone := make(chan struct{})
+
+	go func() {
+		defer close(sutDone)
+
+		if kind == "iter" {
+			_ = o.iterate(args[0])
+
+			return
+		}
+
+		for _, fn := range fns {
+			_ = render(&o.sut, fn, args[:n])
+		}
+	}()
+
+	select {
+	case <-sutDone:
+		fmt.Fprintf(os.Stderr, "c13: note: a worker showed no progress for %v on %s %s%q but the same calls return when repeated: not a hang, continuing\n",
+			stallLimit, o.name, kind, args[:n])
+
+		return
+	case <-time.After(20 * time.Second):
 	}
 
 	fmt.Fprintf(os.Stderr, "c13: a worker made no progress for %v on %s %s%q; the reference returns: the system under test hangs\n",
